@@ -11,5 +11,5 @@ for id in "$@"; do
   grep -v "^\[" /tmp/trymut.$id.out | head -${TRYMUT_LINES:-12}
   echo "exit($id)=$rc"
 done
-git -C /repo checkout -- . 
+git -C /repo checkout -- . ; git -C /repo clean -fdq
 git -C /repo status --porcelain
